@@ -191,9 +191,11 @@ CutProps ==
 
 \* number of destination Write calls that make the file complete, by size class
 \*   "0": empty; "1", "150k-1", "75k": one first read that hits EOF (small file, background writer)
-\*   "150k": the first read fills the small buffer exactly (foreground, no copy chunk)
+\*   "150k": the first read fills the small buffer exactly. Unrepaired code (io.ReadFull drops the EOF that comes with the
+\*           last bytes): foreground, no copy chunk. Repaired code (Fixed; the first read reports n = len, io.EOF as the tar
+\*           reader delivers it): a small file like the others, written in the background
 \*   "150k+1", "155k": one copy chunk; "4m": 4 MiB + 150 KiB + 1: two copy chunks
-Small(sz)  == sz \in {"0", "1", "75k", "150k-1"}
+Small(sz)  == sz \in {"0", "1", "75k", "150k-1"} \/ (Fixed /\ sz = "150k")
 NW(sz)     == CASE sz = "150k+1" -> 2 [] sz = "155k" -> 2 [] sz = "4m" -> 3 [] OTHER -> 1
 \* a stream segment of this class can end inside (at a 512-byte block boundary that is not its start)
 MidFirst(sz)    == sz \in {"75k", "150k-1", "150k", "150k+1", "155k", "4m"}    \* first read segment
